@@ -538,7 +538,7 @@ func (t *Table) Put(input *types.PutItemInput) (map[string]*types.Item, error) {
 		}, t.getItem(key))
 
 		if !matched {
-			return item, types.NewError("ConditionalCheckFailedException", ErrConditionalRequestFailed.Error(), nil)
+			return item, conditionalCheckFailed(input.ReturnValuesOnConditionCheckFailure, t.getItem(key))
 		}
 	}
 
@@ -692,7 +692,7 @@ func (t *Table) Delete(input *types.DeleteItemInput) (map[string]*types.Item, er
 		}, t.getItem(key))
 
 		if !matched {
-			return nil, types.NewError("ConditionalCheckFailedException", ErrConditionalRequestFailed.Error(), nil)
+			return nil, conditionalCheckFailed(input.ReturnValuesOnConditionCheckFailure, t.getItem(key))
 		}
 	}
 
@@ -779,6 +779,18 @@ func stringValueMap(m map[string]*string) map[string]string {
 	}
 
 	return out
+}
+
+// conditionalCheckFailed builds the error of a refused PutItem / DeleteItem; when the request asked for it
+// (ReturnValuesOnConditionCheckFailure = ALL_OLD) the error carries a copy of the unchanged stored item
+func conditionalCheckFailed(returnValues *string, stored map[string]*types.Item) error {
+	checkErr := &types.ConditionalCheckFailedException{MessageText: ErrConditionalRequestFailed.Error()}
+
+	if returnValues != nil && *returnValues == "ALL_OLD" {
+		checkErr.Item = copyItem(stored)
+	}
+
+	return checkErr
 }
 
 func handleConditionalCheckError(input *types.UpdateItemInput, checkErr *types.ConditionalCheckFailedException, item map[string]*types.Item) {
